@@ -488,30 +488,44 @@ def stakeAfterSlash (stake percent : Nat) : Nat :=
   else if percent = 0 then stake
   else safeMulDiv stake (100 - percent) 100
 
-/-- `SlashValidator`. `markerCleanup = false` is the behaviour BEFORE repair 6a62009 (defect F3): the
-zero-stake branch deleted the validator record but left its unstaking / paused markers. -/
+/-- the zero-stake branch of `SlashValidator` removes the deferred-action markers of the validator it is about to
+delete (repair 6a62009); `markerCleanup = false` is the behaviour before that repair (defect F3) -/
+def slashCleanMarkers (markerCleanup : Bool) (L : Ledger) (a : Addr) (val : Validator) : Ledger :=
+  let L2 := if markerCleanup && val.unstakingHeight ≠ 0 then
+      { L with unstaking := KSet.del L.unstaking (val.unstakingHeight, a) } else L
+  if markerCleanup && val.maxPausedHeight ≠ 0 then
+      { L2 with paused := KSet.del L2.paused (val.maxPausedHeight, a) } else L2
+
+/-- the committee / delegation bookkeeping of the non-zero branch (delegates: repair of the delegated tallies) -/
+def slashMembership (L : Ledger) (a : Addr) (val : Validator) (after : Nat) (newCs : List Nat) (slashAmount : Nat) : M Ledger :=
+  if val.delegate then do
+    let L' ← subFromDelegated L slashAmount
+    updateDelegations L' a val after newCs
+  else updateCommittees L a val after newCs
+
+/-- the end of the non-zero branch: force-unstake below the minimum, otherwise write the record -/
+def slashFinish (L : Ledger) (a : Addr) (val' : Validator) : Ledger :=
+  let r := setUnstakingIfBelowMinimum L a val'
+  if r.1 then r.2 else valPut r.2 a val'
+
+/-- `SlashValidator` -/
 def slashValidatorWith (markerCleanup : Bool) (L : Ledger) (a : Addr) (val : Validator) (chain percent : Nat) : M Ledger :=
   match slashScope L a val chain percent with
   | none => .ok L
-  | some (percent, newCs, L0) => do
+  | some (percent, newCs, L0) =>
     let after := stakeAfterSlash val.stake percent
     let slashAmount := val.stake - after
-    let L1 ← subFromTotal L0 slashAmount
-    if after = 0 then
-      let L2 := if markerCleanup && val.unstakingHeight ≠ 0 then
-          { L1 with unstaking := KSet.del L1.unstaking (val.unstakingHeight, a) } else L1
-      let L3 := if markerCleanup && val.maxPausedHeight ≠ 0 then
-          { L2 with paused := KSet.del L2.paused (val.maxPausedHeight, a) } else L2
-      deleteValidator L3 a val
-    else
-      let L2 ← subFromStaked L1 slashAmount
-      let L3 ← if val.delegate then do
-          let L' ← subFromDelegated L2 slashAmount
-          updateDelegations L' a val after newCs
-        else updateCommittees L2 a val after newCs
-      let val' := { val with committees := newCs, stake := after }
-      let (wasSet, L4) := setUnstakingIfBelowMinimum L3 a val'
-      if wasSet then pure L4 else pure (valPut L4 a val')
+    match subFromTotal L0 slashAmount with
+    | .error e => .error e
+    | .ok L1 =>
+      if after = 0 then deleteValidator (slashCleanMarkers markerCleanup L1 a val) a val
+      else
+        match subFromStaked L1 slashAmount with
+        | .error e => .error e
+        | .ok L2 =>
+          match slashMembership L2 a val after newCs slashAmount with
+          | .error e => .error e
+          | .ok L3 => .ok (slashFinish L3 a { val with committees := newCs, stake := after })
 
 def slashValidator := slashValidatorWith true
 /-- the pre-repair variant kept as a witness (see `Props/C12`) -/
@@ -541,14 +555,18 @@ def setValidatorsPaused (L : Ledger) (chain : Nat) : List Addr → Ledger
         | .ok L1 => setValidatorsPaused L1 chain as
         | .error _ => setValidatorsPaused L chain as
 
-/-- `SlashAndResetNonSigners` -/
-def slashAndResetNonSigners (L : Ledger) (chain : Nat) : M Ledger := do
-  let bad := L.nonSigners.filterMap fun (a, ns) =>
+/-- the non-signers that exceeded `MaxNonSign` in this window, in address order -/
+def badNonSigners (L : Ledger) (chain : Nat) : List Addr :=
+  L.nonSigners.filterMap fun (a, ns) =>
     let count := if v2 L && !ns.chains.isEmpty then NMap.get ns.chains chain else ns.counter
     if count > L.params.maxNonSign then some a else none
-  let L1 := setValidatorsPaused L chain bad
-  let L2 ← slashValidators L1 chain L.params.nonSignSlashPercentage bad
-  pure { L2 with nonSigners := [] }
+
+/-- `SlashAndResetNonSigners` -/
+def slashAndResetNonSigners (L : Ledger) (chain : Nat) : M Ledger :=
+  let bad := badNonSigners L chain
+  match slashValidators (setValidatorsPaused L chain bad) chain L.params.nonSignSlashPercentage bad with
+  | .error e => .error e
+  | .ok L2 => .ok { L2 with nonSigners := [] }
 
 /-- `IncrementNonSigners` -/
 def incrementNonSigners (L : Ledger) (chain : Nat) : List Addr → Ledger
@@ -559,23 +577,28 @@ def incrementNonSigners (L : Ledger) (chain : Nat) : List Addr → Ledger
     let ns2 : NonSigner := if v2 L then { ns1 with chains := NMap.put ns1.chains chain ((NMap.get ns1.chains chain + 1) % U64) } else ns1
     incrementNonSigners { L with nonSigners := AMap.set L.nonSigners a ns2 } chain as
 
-/-- `HandleDoubleSigners`: every (address, height) must be new; one slash per listed height -/
+/-- index the heights of one double signer: every (address, height) must be new -/
+def indexHeights (L : Ledger) (a : Addr) : List Nat → M Ledger
+  | [] => .ok L
+  | h :: hs =>
+    if KSet.has L.doubleSigners (a, h) then .error .invalidDoubleSigner
+    else indexHeights { L with doubleSigners := KSet.add L.doubleSigners (a, h) } a hs
+
+/-- `HandleDoubleSigners`, first part: validate and index; returns the slash list (one entry per listed height) -/
 def indexDoubleSigners (L : Ledger) : List (Addr × List Nat) → M (Ledger × List Addr)
   | [] => .ok (L, [])
-  | (a, hs) :: rest => do
-    if hs.isEmpty then throw .invalidDoubleSignHeights
-    let rec go (L : Ledger) : List Nat → M Ledger
-      | [] => .ok L
-      | h :: hs =>
-        if KSet.has L.doubleSigners (a, h) then .error .invalidDoubleSigner
-        else go { L with doubleSigners := KSet.add L.doubleSigners (a, h) } hs
-    let L1 ← go L hs
-    let (L2, more) ← indexDoubleSigners L1 rest
-    pure (L2, hs.map (fun _ => a) ++ more)
+  | (a, hs) :: rest =>
+    if hs.isEmpty then .error .invalidDoubleSignHeights
+    else match indexHeights L a hs with
+      | .error e => .error e
+      | .ok L1 => match indexDoubleSigners L1 rest with
+        | .error e => .error e
+        | .ok (L2, more) => .ok (L2, hs.map (fun _ => a) ++ more)
 
-def handleDoubleSigners (L : Ledger) (chain : Nat) (ds : List (Addr × List Nat)) : M Ledger := do
-  let (L1, slashList) ← indexDoubleSigners L ds
-  slashValidators L1 chain L.params.doubleSignSlashPercentage slashList
+def handleDoubleSigners (L : Ledger) (chain : Nat) (ds : List (Addr × List Nat)) : M Ledger :=
+  match indexDoubleSigners L ds with
+  | .error e => .error e
+  | .ok r => slashValidators r.1 chain L.params.doubleSignSlashPercentage r.2
 
 /-- `lib.Uint64PercentageDiv` (the multiplication is unguarded) -/
 def percentageDiv (dividend divisor : Nat) : Nat :=
@@ -590,14 +613,16 @@ def reducePercentage (full percentage : Nat) : Nat :=
 
 /-- `HandleByzantine` for a committee given as (address, voting power, signed) in validator-set order;
 returns the non-signer percent -/
-def handleByzantine (L : Ledger) (chain : Nat) (members : List (Addr × Nat × Bool)) (ds : List (Addr × List Nat)) : M (Ledger × Nat) := do
-  let L1 ← if L.height % L.params.nonSignWindow = 0 then slashAndResetNonSigners L chain else pure L
-  let nonSigners := members.filterMap fun (a, _, signed) => if signed then none else some a
-  let nsPower := (members.foldl (fun acc (_, p, signed) => if signed then acc else acc + p) 0) % U64
-  let total := (members.foldl (fun acc (_, p, _) => acc + p) 0) % U64
-  let L2 := incrementNonSigners L1 chain nonSigners
-  let L3 ← handleDoubleSigners L2 chain ds
-  pure (L3, percentageDiv nsPower total)
+def handleByzantine (L : Ledger) (chain : Nat) (members : List (Addr × Nat × Bool)) (ds : List (Addr × List Nat)) : M (Ledger × Nat) :=
+  match (if L.height % L.params.nonSignWindow = 0 then slashAndResetNonSigners L chain else .ok L) with
+  | .error e => .error e
+  | .ok L1 =>
+    let nonSigners := members.filterMap fun (a, _, signed) => if signed then none else some a
+    let nsPower := (members.foldl (fun acc (_, p, signed) => if signed then acc else acc + p) 0) % U64
+    let total := (members.foldl (fun acc (_, p, _) => acc + p) 0) % U64
+    match handleDoubleSigners (incrementNonSigners L1 chain nonSigners) chain ds with
+    | .error e => .error e
+    | .ok L3 => .ok (L3, percentageDiv nsPower total)
 
 /-! ## committee data and rewards (`fsm/committee.go`, `fsm/automatic.go`) -/
 
@@ -623,65 +648,89 @@ def addPercent (ps : List (Addr × Nat)) (a : Addr) (p : Nat) : M (List (Addr ×
       else .ok (ps.map fun e => if e.1 = a then (a, old + p) else e)
     | none => .ok (ps ++ [(a, p)])
 
+/-- `UpsertCommitteeData` with `CommitteeData.Combine`: `pay` = (address, percent, chain id) -/
+def upsertCommitteeData (L : Ledger) (chain qcHeight qcRootHeight : Nat) (pay : List (Addr × Nat × Nat)) : M Ledger :=
+  let data := getCommitteeData L chain
+  if qcHeight ≤ data.lastChainHeight then .error .invalidQCCommitteeHeight
+  else if qcRootHeight < data.lastRootHeight then .error .invalidQCRootChainHeight
+  else
+    match pay.foldlM (fun ps (e : Addr × Nat × Nat) => if e.2.2 = chain then addPercent ps e.1 e.2.1 else pure ps) data.percents with
+    | .error e => .error e
+    | .ok percents =>
+      if data.samples = MAXU then .error .invalidPercentAllocation
+      else .ok (putCommitteeData L { chainId := chain, lastRootHeight := qcRootHeight, lastChainHeight := qcHeight,
+                                     samples := data.samples + 1, percents := percents })
+
 /-- `HandleCertificateResults` for the node's own chain with the committee given explicitly
 (the root-chain `BeginBlock` path): `pay` = (address, percent, chain id) -/
 def handleCertificateResults (L : Ledger) (qcHeight qcRootHeight : Nat) (members : List (Addr × Nat × Bool))
-    (ds : List (Addr × List Nat)) (pay : List (Addr × Nat × Nat)) : M Ledger := do
+    (ds : List (Addr × List Nat)) (pay : List (Addr × Nat × Nat)) : M Ledger :=
   let chain := L.cfg.chainId
-  if L.retired.contains chain then throw .nonSubsidizedCommittee
-  let data := getCommitteeData L chain
-  if qcRootHeight < data.lastRootHeight then throw .invalidQCRootChainHeight
-  if qcHeight ≤ data.lastChainHeight then throw .invalidQCCommitteeHeight
-  let (L1, nsPercent) ← handleByzantine L chain members ds
-  let pay' := pay.map fun (a, p, c) => (a, reducePercentage p nsPercent, c)
-  -- UpsertCommitteeData
-  let data := getCommitteeData L1 chain
-  if qcHeight ≤ data.lastChainHeight then throw .invalidQCCommitteeHeight
-  if qcRootHeight < data.lastRootHeight then throw .invalidQCRootChainHeight
-  let percents ← pay'.foldlM (fun ps (a, p, c) => if c = chain then addPercent ps a p else pure ps) data.percents
-  if data.samples = MAXU then throw .invalidPercentAllocation
-  pure (putCommitteeData L1 { chainId := chain, lastRootHeight := qcRootHeight, lastChainHeight := qcHeight,
-                              samples := data.samples + 1, percents := percents })
+  if L.retired.contains chain then .error .nonSubsidizedCommittee
+  else if qcRootHeight < (getCommitteeData L chain).lastRootHeight then .error .invalidQCRootChainHeight
+  else if qcHeight ≤ (getCommitteeData L chain).lastChainHeight then .error .invalidQCCommitteeHeight
+  else
+    match handleByzantine L chain members ds with
+    | .error e => .error e
+    | .ok r =>
+      -- the payment percents are reduced by the share of voting power that did not sign
+      upsertCommitteeData r.1 chain qcHeight qcRootHeight (pay.map fun (a, p, c) => (a, reducePercentage p r.2, c))
 
-/-- `DistributeCommitteeReward`: `(distributed, ledger)` -/
-def distributeReward (L : Ledger) (a : Addr) (percent poolAmount samples : Nat) : M (Nat × Ledger) := do
+/-- the two reward amounts of `DistributeCommitteeReward`: (full, after the early-withdrawal penalty) -/
+def rewardAmounts (L : Ledger) (percent poolAmount samples : Nat) : Nat × Nat :=
   let full := if samples ≠ 0 then (percent * poolAmount / (samples * 100)) % U64 else 0
   let early :=
     if L.params.earlyWithdrawalPenalty ≥ 100 || full = 0 then 0
     else if L.params.earlyWithdrawalPenalty = 0 then full
     else safeMulDiv full (100 - L.params.earlyWithdrawalPenalty) 100
+  (full, early)
+
+/-- `DistributeCommitteeReward`: `(distributed, ledger)` -/
+def distributeReward (L : Ledger) (a : Addr) (percent poolAmount samples : Nat) : M (Nat × Ledger) :=
+  let full := (rewardAmounts L percent poolAmount samples).1
+  let early := (rewardAmounts L percent poolAmount samples).2
   match valGet? L a with
-  | none => do let L1 ← accountAdd L a early; pure (early, L1)
+  | none => match accountAdd L a early with
+    | .error e => .error e
+    | .ok L1 => .ok (early, L1)
   | some val =>
-    if val.compound && val.unstakingHeight = 0 then do
-      let L1 ← updateValidatorStake L a val val.committees full
-      pure (full, L1)
-    else do let L1 ← accountAdd L val.output early; pure (early, L1)
+    if val.compound && val.unstakingHeight = 0 then
+      match updateValidatorStake L a val val.committees full with
+      | .error e => .error e
+      | .ok L1 => .ok (full, L1)
+    else match accountAdd L val.output early with
+      | .error e => .error e
+      | .ok L1 => .ok (early, L1)
 
 def distributeStubs (L : Ledger) (poolAmount samples : Nat) : List (Addr × Nat) → Nat → M (Nat × Ledger)
   | [], tot => .ok (tot, L)
-  | (a, p) :: rest, tot => do
-    let (d, L1) ← distributeReward L a p poolAmount samples
-    if d > 0 then
-      if tot > MAXU - d then throw .invalidAmount
-      distributeStubs L1 poolAmount samples rest (tot + d)
-    else distributeStubs L1 poolAmount samples rest tot
+  | (a, p) :: rest, tot =>
+    match distributeReward L a p poolAmount samples with
+    | .error e => .error e
+    | .ok (d, L1) =>
+      if d > 0 then
+        if tot > MAXU - d then .error .invalidAmount
+        else distributeStubs L1 poolAmount samples rest (tot + d)
+      else distributeStubs L1 poolAmount samples rest tot
 
-/-- `DistributeCommitteeRewards` -/
-def distributeCommitteeRewards (L : Ledger) : M Ledger :=
-  let rec go (L : Ledger) : List CommitteeData → M Ledger
-    | [] => .ok L
-    | d :: ds =>
-      if d.percents.isEmpty then go L ds
-      else do
-        let poolAmount := poolGet L d.chainId
-        let (tot, L1) ← distributeStubs L poolAmount d.samples d.percents 0
-        -- `rewardPool.Amount - totalDistributed` is an unguarded uint64 subtraction
-        let burn := (poolAmount + U64 - tot) % U64
-        let L2 ← subFromTotal L1 burn
-        let L3 := poolPut L2 d.chainId 0
-        go (putCommitteeData L3 { chainId := d.chainId, lastRootHeight := d.lastRootHeight, lastChainHeight := d.lastChainHeight }) ds
-  go L L.committeesData
+/-- one committee of `DistributeCommitteeRewards`: pay the stubs, burn the undistributed remainder, empty the pool,
+clear the committee data (keeping the heights) -/
+def distributeFor (L : Ledger) (d : CommitteeData) : M Ledger :=
+  if d.percents.isEmpty then .ok L
+  else
+    let poolAmount := poolGet L d.chainId
+    match distributeStubs L poolAmount d.samples d.percents 0 with
+    | .error e => .error e
+    | .ok (tot, L1) =>
+      -- `rewardPool.Amount - totalDistributed` is an unguarded uint64 subtraction
+      match subFromTotal L1 ((poolAmount + U64 - tot) % U64) with
+      | .error e => .error e
+      | .ok L2 =>
+        .ok (putCommitteeData (poolPut L2 d.chainId 0)
+          { chainId := d.chainId, lastRootHeight := d.lastRootHeight, lastChainHeight := d.lastChainHeight })
+
+/-- `DistributeCommitteeRewards` (the list of committee data is read once, before the loop) -/
+def distributeCommitteeRewards (L : Ledger) : M Ledger := L.committeesData.foldlM distributeFor L
 
 /-! ## automatic begin / end block actions (`fsm/automatic.go`) -/
 
@@ -722,27 +771,40 @@ def forceUnstakeValidator (L : Ledger) (a : Addr) : Ledger :=
     if val.unstakingHeight ≠ 0 then L
     else setValidatorUnstaking L a val ((L.height + L.params.unstakingBlocks) % U64)
 
+/-- the addresses with a marker at height `h`, in address order -/
+def dueAt (m : KSet (Nat × Addr)) (h : Nat) : List Addr :=
+  m.filterMap fun e => if e.1.1 = h then some e.1.2 else none
+
 /-- `ForceUnstakeMaxPaused` -/
 def forceUnstakeMaxPaused (L : Ledger) : Ledger :=
-  let due := L.paused.filterMap fun ((h, a), _) => if h = L.height then some a else none
+  let due := dueAt L.paused L.height
   let L1 := due.foldl forceUnstakeValidator L
   due.foldl (fun L a => { L with paused := KSet.del L.paused (L.height, a) }) L1
 
+/-- one marker of `DeleteFinishedUnstaking`: return the stake to the output address, delete the validator -/
+def finishUnstakingStep (L : Ledger) (a : Addr) : M Ledger :=
+  match valGet? L a with
+  | none => .error .validatorNotExists
+  | some val =>
+    match accountAdd L val.output val.stake with
+    | .error e => .error e
+    | .ok L1 => deleteValidator L1 a val
+
 /-- `DeleteFinishedUnstaking` -/
-def deleteFinishedUnstaking (L : Ledger) : M Ledger := do
-  let due := L.unstaking.filterMap fun ((h, a), _) => if h = L.height then some a else none
-  let L1 ← due.foldlM (fun L a => do
-      let val ← getValidator L a
-      let L' ← accountAdd L val.output val.stake
-      deleteValidator L' a val) L
-  pure (due.foldl (fun L a => { L with unstaking := KSet.del L.unstaking (L.height, a) }) L1)
+def deleteFinishedUnstaking (L : Ledger) : M Ledger :=
+  let due := dueAt L.unstaking L.height
+  match due.foldlM finishUnstakingStep L with
+  | .error e => .error e
+  | .ok L1 => .ok (due.foldl (fun L a => { L with unstaking := KSet.del L.unstaking (L.height, a) }) L1)
 
 /-- `EndBlock` followed by the block boundary (height + 1, fresh slash tracker) -/
-def endBlock (L : Ledger) : M Ledger := do
-  let L1 ← distributeCommitteeRewards L
-  let L2 := forceUnstakeMaxPaused L1
-  let L3 ← deleteFinishedUnstaking L2
-  pure { L3 with height := L3.height + 1, slashTracker := [] }
+def endBlock (L : Ledger) : M Ledger :=
+  match distributeCommitteeRewards L with
+  | .error e => .error e
+  | .ok L1 =>
+    match deleteFinishedUnstaking (forceUnstakeMaxPaused L1) with
+    | .error e => .error e
+    | .ok L3 => .ok { L3 with height := L3.height + 1, slashTracker := [] }
 
 /-- the ledger part of `BeginBlock` that does not depend on the previous certificate -/
 def beginBlockMint (L : Ledger) : M Ledger :=
@@ -811,31 +873,48 @@ rotation counter -/
 def trimCommittees (cs : List Nat) (maxC idx : Nat) : List Nat :=
   (List.range maxC).map fun i => cs.getD ((idx % cs.length + i) % cs.length) 0
 
+/-- one step of the minimum-stake scan of `ConformStateToParamUpdate` (the validator prefix is iterated in address
+order; every record is visited once, so the record the iterator yields is the current one) -/
+def conformMinStakeStep (L : Ledger) (a : Addr) : Ledger :=
+  match valGet? L a with
+  | some val => (setUnstakingIfBelowMinimum L a val).2
+  | none => L
+
+/-- one step of the committee-trimming scan; the `Nat` is the running rotation counter `idx` -/
+def conformTrimStep (acc : Ledger × Nat) (a : Addr) : M (Ledger × Nat) :=
+  let (L, idx) := acc
+  match valGet? L a with
+  | none => .ok (L, idx)
+  | some val =>
+    if val.committees.length ≤ L.params.maxCommittees then .ok (L, idx)
+    else
+      let newCs := trimCommittees val.committees L.params.maxCommittees idx
+      match (if val.delegate then updateDelegations L a val val.stake newCs else updateCommittees L a val val.stake newCs) with
+      | .error e => .error e
+      | .ok L' => .ok (valPut L' a { val with committees := newCs }, idx + 1)
+
 /-- `ConformStateToParamUpdate` (minimum stake raised; MaxCommittees lowered) -/
-def conformStateToParamUpdate (L : Ledger) (prev : Params) : M Ledger := do
-  let raised := prev.minStakeValidators < L.params.minStakeValidators || prev.minStakeDelegates < L.params.minStakeDelegates
-  -- iterate over the validator records as they were when the scan started
-  let L1 := if raised then
-      L.validators.foldl (fun L (a, val) => (setUnstakingIfBelowMinimum L a val).2) L
-    else L
-  if prev.maxCommittees ≤ L1.params.maxCommittees then pure L1
+def conformMinStake (L : Ledger) (prev : Params) : Ledger :=
+  if prev.minStakeValidators < L.params.minStakeValidators || prev.minStakeDelegates < L.params.minStakeDelegates then
+    (L.validators.map (·.1)).foldl conformMinStakeStep L
+  else L
+
+def conformStateToParamUpdate (L : Ledger) (prev : Params) : M Ledger :=
+  let L1 := conformMinStake L prev
+  if prev.maxCommittees ≤ L1.params.maxCommittees then .ok L1
   else
-    let maxC := L1.params.maxCommittees
-    let (L2, _) ← L1.validators.foldlM (fun (acc : Ledger × Nat) (a, val) => do
-        let (L, idx) := acc
-        if val.committees.length ≤ maxC then pure (L, idx)
-        else
-          let newCs := trimCommittees val.committees maxC idx
-          let L' ← if val.delegate then updateDelegations L a val val.stake newCs
-                   else updateCommittees L a val val.stake newCs
-          pure (valPut L' a { val with committees := newCs }, idx + 1)) (L1, 0)
-    pure L2
+    match (L1.validators.map (·.1)).foldlM conformTrimStep (L1, 0) with
+    | .error e => .error e
+    | .ok r => .ok r.1
 
 /-- `HandleMessageChangeParameter` for a `uint64` value -/
-def handleChangeParameter (L : Ledger) (space key : String) (v : Nat) (start stop : Nat) : M Ledger := do
-  approveProposal L start stop
-  let p ← L.params.setUint space key v
-  conformStateToParamUpdate { L with params := p } L.params
+def handleChangeParameter (L : Ledger) (space key : String) (v : Nat) (start stop : Nat) : M Ledger :=
+  match approveProposal L start stop with
+  | .error e => .error e
+  | .ok _ =>
+    match L.params.setUint space key v with
+    | .error e => .error e
+    | .ok p => conformStateToParamUpdate { L with params := p } L.params
 
 /-! ## transactions (`fsm/transaction.go`) -/
 
@@ -920,19 +999,26 @@ def faucetTopUp (L : Ledger) (sender : Addr) (required : Nat) : M Ledger :=
     else if accGet L sender ≥ required then .ok L
     else mintToAccount L sender (required - accGet L sender)
 
+/-- the faucet step of `ApplyTransaction` (send transactions only) -/
+def txFaucet (L : Ledger) (sender : Addr) (fee : Nat) : Msg → M Ledger
+  | .send _ _ amount => if amount > MAXU - fee then .error .invalidAmount else faucetTopUp L sender (amount + fee)
+  | _ => .ok L
+
 /-- `ApplyTransaction` (`CheckTx` + fee + handler) for a correctly signed transaction from `sender` -/
-def applyTx (L : Ledger) (sender : Addr) (fee : Nat) (msg : Msg) : M Ledger := do
-  msg.check
-  if fee < msg.stateFee L.params then throw .feeBelowLimit
-  let signers ← authorizedSigners L msg
-  if !signers.contains sender then throw .unauthorizedTx
-  let L1 ← match msg with
-    | .send _ _ amount =>
-      if amount > MAXU - fee then throw .invalidAmount
-      faucetTopUp L sender (amount + fee)
-    | _ => pure L
-  let L2 ← deductFees L1 sender fee
-  handleMessage L2 sender msg
+def applyTx (L : Ledger) (sender : Addr) (fee : Nat) (msg : Msg) : M Ledger :=
+  match msg.check with
+  | .error e => .error e
+  | .ok _ =>
+    if fee < msg.stateFee L.params then .error .feeBelowLimit
+    else match authorizedSigners L msg with
+      | .error e => .error e
+      | .ok signers =>
+        if !signers.contains sender then .error .unauthorizedTx
+        else match txFaucet L sender fee msg with
+          | .error e => .error e
+          | .ok L1 => match deductFees L1 sender fee with
+            | .error e => .error e
+            | .ok L2 => handleMessage L2 sender msg
 
 /-! ## genesis (`fsm/genesis.go`) -/
 
@@ -941,48 +1027,63 @@ structure GenesisValidator where
   val : Validator
 
 /-- `SetValidators` for one validator -/
-def genesisValidator (L : Ledger) (g : GenesisValidator) : M Ledger := do
+def genesisValidator (L : Ledger) (g : GenesisValidator) : M Ledger :=
   let v := g.val
-  if L.supply.total > MAXU - v.stake || L.supply.staked > MAXU - v.stake then throw .invalidAmount
-  if v.delegate && L.supply.delegatedOnly > MAXU - v.stake then throw .invalidAmount
-  -- the unstaking / paused marker (an unstaking validator is never paused)
-  let (v1, L1) :=
-    if v.unstakingHeight ≠ 0 then
-      let L' := setValidatorUnstaking L g.addr v v.unstakingHeight
-      ({ v with maxPausedHeight := 0 }, L')
-    else if v.maxPausedHeight ≠ 0 then (v, setValidatorPaused L g.addr v v.maxPausedHeight)
-    else (v, L)
-  let L2 := { L1 with supply := { L1.supply with total := L1.supply.total + v.stake, staked := L1.supply.staked + v.stake } }
-  let L3 := valPut L2 g.addr v1
-  if v.delegate then
-    let L4 := { L3 with supply := { L3.supply with delegatedOnly := L3.supply.delegatedOnly + v.stake } }
-    setDelegations L4 g.addr v.stake v.committees
-  else setCommittees L3 g.addr v.stake v.committees
+  if L.supply.total > MAXU - v.stake || L.supply.staked > MAXU - v.stake then .error .invalidAmount
+  else if v.delegate && L.supply.delegatedOnly > MAXU - v.stake then .error .invalidAmount
+  else
+    -- the unstaking / paused marker (an unstaking validator is never paused)
+    let L1 :=
+      if v.unstakingHeight ≠ 0 then setValidatorUnstaking L g.addr v v.unstakingHeight
+      else if v.maxPausedHeight ≠ 0 then setValidatorPaused L g.addr v v.maxPausedHeight
+      else L
+    let v1 : Validator := if v.unstakingHeight ≠ 0 then { v with maxPausedHeight := 0 } else v
+    let L2 := { L1 with supply := { L1.supply with total := L1.supply.total + v.stake, staked := L1.supply.staked + v.stake } }
+    let L3 := valPut L2 g.addr v1
+    if v.delegate then
+      setDelegations { L3 with supply := { L3.supply with delegatedOnly := L3.supply.delegatedOnly + v.stake } } g.addr v.stake v.committees
+    else setCommittees L3 g.addr v.stake v.committees
+
+/-- `SetAccounts` for one account: the running total is guarded -/
+def genesisAccount (L : Ledger) (e : Addr × Nat) : M Ledger :=
+  if L.supply.total > MAXU - e.2 then .error .invalidAmount
+  else .ok (accPut { L with supply := { L.supply with total := L.supply.total + e.2 } } e.1 e.2)
+
+/-- `SetPools` for one pool -/
+def genesisPool (L : Ledger) (e : Nat × Nat) : M Ledger :=
+  if L.supply.total > MAXU - e.2 then .error .invalidAmount
+  else .ok (poolPut { L with supply := { L.supply with total := L.supply.total + e.2 } } e.1 e.2)
 
 /-- some element occurs twice (`lib.DeDuplicator`) -/
 def hasDup : List Nat → Bool
   | [] => false
   | x :: xs => xs.contains x || hasDup xs
 
+/-- `ValidateGenesisState` on the modelled part of the genesis file -/
+def validateGenesis (params : Params) (accounts : List (Addr × Nat)) (pools : List (Nat × Nat)) (vals : List GenesisValidator) : M Unit :=
+  match params.checkVal with
+  | .error e => .error e
+  | .ok _ =>
+    if params.daoRewardPercentage > 100 then .error .invalidParam
+    -- a validator address, an account address or a pool id listed twice is rejected
+    else if hasDup (vals.map (·.addr)) then .error .invalidAddress
+    else if hasDup (accounts.map (·.1)) then .error .invalidAddress
+    else if hasDup (pools.map (·.1)) then .error .invalidChainId
+    else .ok ()
+
 /-- `NewStateFromGenesis` (accounts, pools, validators, retired committees; no order books) at height 1.
-`SetAccounts` / `SetPools` / `SetValidators` add to the running total with an overflow guard. -/
+Protocol-gated genesis writes look at the height the state machine has while loading: 0. -/
 def genesis (cfg : Config) (params : Params) (accounts : List (Addr × Nat)) (pools : List (Nat × Nat))
-    (vals : List GenesisValidator) (retired : List Nat) : M Ledger := do
-  params.checkVal
-  if params.daoRewardPercentage > 100 then throw .invalidParam
-  -- `ValidateGenesisState`: a validator address, an account address or a pool id listed twice is rejected
-  if hasDup (vals.map (·.addr)) then throw .invalidAddress
-  if hasDup (accounts.map (·.1)) then throw .invalidAddress
-  if hasDup (pools.map (·.1)) then throw .invalidChainId
-  -- protocol-gated genesis writes look at the height the state machine has while loading: 0
-  let L0 : Ledger := { cfg := cfg, params := params, height := 0 }
-  let L1 ← accounts.foldlM (fun (L : Ledger) (a, x) =>
-      if L.supply.total > MAXU - x then throw Err.invalidAmount
-      else pure (accPut { L with supply := { L.supply with total := L.supply.total + x } } a x)) L0
-  let L2 ← pools.foldlM (fun (L : Ledger) (id, x) =>
-      if L.supply.total > MAXU - x then throw Err.invalidAmount
-      else pure (poolPut { L with supply := { L.supply with total := L.supply.total + x } } id x)) L1
-  let L3 ← vals.foldlM genesisValidator L2
-  pure { L3 with retired := retired, height := 1 }
+    (vals : List GenesisValidator) (retired : List Nat) : M Ledger :=
+  match validateGenesis params accounts pools vals with
+  | .error e => .error e
+  | .ok _ =>
+    match accounts.foldlM genesisAccount ({ cfg := cfg, params := params, height := 0 } : Ledger) with
+    | .error e => .error e
+    | .ok L1 => match pools.foldlM genesisPool L1 with
+      | .error e => .error e
+      | .ok L2 => match vals.foldlM genesisValidator L2 with
+        | .error e => .error e
+        | .ok L3 => .ok { L3 with retired := retired, height := 1 }
 
 end Canopy.Ledger
